@@ -151,6 +151,32 @@ fn xproc_digests(seed: u64) -> Vec<(u64, u64, u64)> {
         .collect()
 }
 
+/// `fstmon C15-starved --seed N`: the same small sequences, but every allocation of 256 KiB or more fails. Either the
+/// process dies (allocation failure aborts) or it must print the same digests as everybody else.
+pub fn starved_child(seed: u64) -> i32 {
+    let cases = small_xproc_cases(seed);
+    crate::allocmeter::refuse_allocations_from(256 << 10);
+    for (i, kv) in cases.iter().enumerate() {
+        let mut b = Builder::new(Vec::new()).unwrap();
+        for (k, v) in kv {
+            b.insert(k, *v).unwrap();
+        }
+        let d = digest(&b.into_inner().unwrap());
+        println!("digest {} {:016x} {:016x} 0", i, d.0, d.1);
+    }
+    0
+}
+
+fn small_xproc_cases(seed: u64) -> Vec<Kv> {
+    let mut rng = Rng::new(seed, 0x57a2);
+    (0..6)
+        .map(|i| {
+            let keys = gen::random_keys(&mut rng, 30 + i * 40, b"abcdefgh", 5);
+            gen::assign(keys, [5usize, 1, 0][i % 3], &mut rng)
+        })
+        .collect()
+}
+
 /// `fstmon C15-child --seed N`: print one digest line per cross-process case
 pub fn child(seed: u64) -> i32 {
     for (i, d) in xproc_digests(seed).iter().enumerate() {
@@ -294,6 +320,69 @@ pub fn run(ctx: &Ctx) -> i32 {
             ev.violate("bytes-differ", "the same sequences give different bytes while 40 other (idle) builders are alive in the process".into(), J::Null);
         }
     }
+    // (c) a build that FAILED earlier on this thread is not part of the input of the next build
+    {
+        let mut rng = Rng::new(ctx.seed, 0x15_fa1);
+        for i in 0..ctx.tier.pick(200, 2000) {
+            let alpha = gen::alphabet(&mut rng);
+            let nk = 2 + rng.usize(80);
+            let keys = gen::random_keys(&mut rng, nk, &alpha, 5);
+            let kv = gen::assign(keys, [5usize, 1, 4, 0][i % 4], &mut rng);
+            let clean = build::build(Front::RawMemoryInsert, &kv).unwrap_or_default();
+            // a doomed build on a sink that fails at a random write call (and sometimes a panicking one is avoided)
+            let fail_at = rng.usize(40);
+            let _ = guard(|| {
+                let sink = crate::sinks::Sink::new(crate::sinks::Policy::FailWriteAt(fail_at, crate::sinks::Fault::Err(std::io::ErrorKind::Other)));
+                if let Ok(mut b) = Builder::new(sink) {
+                    for (k, v) in &kv {
+                        if b.insert(k, *v).is_err() {
+                            break;
+                        }
+                    }
+                    let _ = b.finish();
+                }
+            });
+            let front = [Front::RawMemoryInsert, Front::MapInsert, Front::RawNewVec, Front::MapFromIter][i % 4];
+            ev.eval(Some(crate::rng::fnv_u64(0x15_fa1, i as u64)));
+            ev.count("builds-after-a-failed-build-on-the-same-thread");
+            match guard(|| build::build(front, &kv)) {
+                Ok(Ok(b)) if b == clean => {}
+                Ok(Ok(b)) => ev.violate("bytes-differ", format!("after a build that failed with an I/O error on the same thread, {:?} produced {} bytes instead of {}", front, b.len(), clean.len()), J::Null),
+                Ok(Err(e)) => ev.violate("build-error", format!("build after a failed build: {}", e), J::Null),
+                Err(p) => ev.violate("build-panic", format!("build after a failed build panicked: {}", p), J::Null),
+            }
+        }
+    }
+    // (d) a process in which large allocations fail either dies or produces the same bytes
+    {
+        let want: Vec<(u64, u64)> = small_xproc_cases(ctx.seed)
+            .iter()
+            .map(|kv| digest(&build::build(Front::RawNewVec, kv).unwrap_or_default()))
+            .collect();
+        ev.eval(Some(0x57a2));
+        let out = std::env::current_exe().ok().and_then(|e| std::process::Command::new(e).arg("C15-starved").arg("--seed").arg(ctx.seed.to_string()).output().ok());
+        match out {
+            Some(o) => {
+                let got: Vec<(u64, u64)> = String::from_utf8_lossy(&o.stdout)
+                    .lines()
+                    .filter(|l| l.starts_with("digest "))
+                    .map(|l| {
+                        let f: Vec<&str> = l.split_whitespace().collect();
+                        (u64::from_str_radix(f[2], 16).unwrap_or(0), u64::from_str_radix(f[3], 16).unwrap_or(1))
+                    })
+                    .collect();
+                if got.is_empty() {
+                    ev.count("memory-starved-child:died-without-output(property holds vacuously)");
+                } else {
+                    ev.count("memory-starved-child:produced-output");
+                    if got[..] != want[..got.len()] {
+                        ev.violate("bytes-differ", "a process in which allocations >= 256 KiB fail still builds, but its bytes differ from a normal build of the same sequences (the output depends on available memory)".into(), J::Null);
+                    }
+                }
+            }
+            None => ev.count("memory-starved-child:not-started(inconclusive)"),
+        }
+    }
     // concurrent threads: the same sequences built simultaneously in 16 threads (incl. tiny geometries with evictions)
     let here = xproc_digests(ctx.seed);
     let evict_cases = here.iter().filter(|d| d.2 > 0).count();
@@ -341,9 +430,9 @@ pub fn run(ctx: &Ctx) -> i32 {
         ev,
         Spec {
             level: "exploration",
-            rule: "one evaluation = one build of a key/value sequence through one API path compared byte-for-byte with the raw Builder::memory()+insert build of the same sequence; paths: 9 map front ends (raw memory/new/extend_iter/extend_stream/from_iter_map, MapBuilder insert/extend_iter/extend_stream, Map::from_iter), 5 set front ends where values are zero (raw add, SetBuilder insert/extend_iter/extend_stream, Set::from_iter), the hook-built default geometry, union of 2..5 partial FSTs streamed into a builder (three ways of splitting), set union -> SetBuilder::extend_stream, BufWriter/File/short-writing sinks, repeated builds; builders that refused duplicate/out-of-order calls in between vs a clean build of the accepted sequence; builds while 40 idle builders are alive; the 44 cross-process sequences (random maps + word lists, incl. tiny cache geometries where evictions occur) are additionally built in 16 concurrent threads and in 2 child processes and compared by 128-bit digest; non-trivial = every path; distinct = (sequence, path)",
+            rule: "one evaluation = one build of a key/value sequence through one API path compared byte-for-byte with the raw Builder::memory()+insert build of the same sequence; paths: 9 map front ends (raw memory/new/extend_iter/extend_stream/from_iter_map, MapBuilder insert/extend_iter/extend_stream, Map::from_iter), 5 set front ends where values are zero (raw add, SetBuilder insert/extend_iter/extend_stream, Set::from_iter), the hook-built default geometry, union of 2..5 partial FSTs streamed into a builder (three ways of splitting), set union -> SetBuilder::extend_stream, BufWriter/File/short-writing sinks, repeated builds; builders that refused duplicate/out-of-order calls in between vs a clean build of the accepted sequence; builds while 40 idle builders are alive; builds right after a build that failed with an I/O error on the same thread; a child process whose allocator refuses allocations >= 256 KiB (it may die, but if it builds the bytes must be the same); the 44 cross-process sequences (random maps + word lists, incl. tiny cache geometries where evictions occur) are additionally built in 16 concurrent threads and in 2 child processes and compared by 128-bit digest; non-trivial = every path; distinct = (sequence, path)",
             assumptions: vec!["different cache geometries may legitimately give different bytes; determinism is judged per geometry".into()],
-            floors: vec![("paths-compared", 10_000), ("concurrent-thread-runs", 16), ("child-process-runs", 2), ("sequences-with-rejected-calls", 100)],
+            floors: vec![("paths-compared", 10_000), ("concurrent-thread-runs", 16), ("child-process-runs", 2), ("sequences-with-rejected-calls", 100), ("builds-after-a-failed-build-on-the-same-thread", 100)],
             exhaustive: Some(false),
         },
     )
